@@ -30,13 +30,18 @@ def run(mid, props):
     d = os.path.join(V, "seeded", mid)
     meta = json.load(open(os.path.join(d, "meta.json")))
     props = props or [meta["property"]]
+    lock = os.path.join(V, "build", "repo.lock")
+    while True:     # O_EXCL: two seeded runs cannot both take the lock
+        try:
+            fd = os.open(lock, os.O_CREAT | os.O_EXCL | os.O_WRONLY)
+            os.write(fd, mid.encode()); os.close(fd)
+            break
+        except FileExistsError:
+            time.sleep(5)
     st = sh(["git", "-C", "/repo", "status", "--porcelain", "--untracked-files=no"]).stdout.strip()
     if st:
+        os.remove(lock)
         print("refusing: /repo is dirty:\n" + st); sys.exit(2)
-    lock = os.path.join(V, "build", "repo.lock")
-    while os.path.exists(lock):
-        time.sleep(5)
-    open(lock, "w").write(mid)
     os.environ["VERIF_SEEDED"] = "1"
     # let check runs that passed the lock before it was taken finish on the clean tree
     rundir = os.path.join(V, "build", "running")
